@@ -149,6 +149,11 @@ structure FitOracle where
   params : Bytes
   aux : Bytes := []
   code : Id → Bytes
+  /-- k-means takes its initial centroids as *slices of the stored vectors* and then updates them in
+  place (utils/kmeans.go), so the product quantiser's `Fit` may overwrite parts of some points'
+  full vectors; which and with what is part of the oracle.  (Unobservable: a trained store reads
+  only the codes.) -/
+  vec : Id → Option Bytes := fun _ => none
 
 /-- `Fit`.  Returns `none` when the `ForEach` inside fails. -/
 def Store.fit (s : Store) (kv : KV) (o : FitOracle) : Option Store :=
@@ -165,7 +170,7 @@ def Store.fit (s : Store) (kv : KV) (o : FitOracle) : Option Store :=
         else
           let items := c.items.map fun p =>
             if p.2.isDeleted then p
-            else (p.1, { p.2 with value := { p.2.value with code := o.code p.1, dirty := true } })
+            else (p.1, { p.2 with value := { vec := (o.vec p.1).getD p.2.value.vec, code := o.code p.1, dirty := true } })
           some { s with cache := { c with items := items }, params := o.params, aux := o.aux }
 
 /-- `Flush`: the item cache, then the parameters -/
